@@ -8,11 +8,12 @@
     `DecodeFact`    Ge::from_bytes refines Spec.Edwards.decode             (gap: proof of the decompression chain)
     `DsmFact`       double_scalarmult_vartime(a, A, b) represents [a]A+[b]B (gap: slide recoding + window loop;
                     the BI table it uses IS proved: Props.C15.BI_is_the_odd_multiples_of_B)
-    `ScalarFacts`, `CanonicalFact`   unit scalar64
     `EdwardsGroupLaw`, `[Fact (Nat.Prime p)]`
-  Hence the `_partial` names.  `verifyStrict` (strict §5.1.3 decoding) implies `verify`, proved unconditionally.
+  (`ScalarFacts`/`CanonicalFact` — reduce_from_wide_bytes = le mod L, from_bytes_canonical accepts exactly < L — are
+  theorems, instantiated from unit scalar64 in Proofs/Ed25519Inst.lean.)  Hence the `_partial` names.  `verifyStrict` (strict §5.1.3 decoding) implies `verify`, proved unconditionally.
 -/
 import CxVerif.Proofs.Ed25519Verify
+import CxVerif.Proofs.Ed25519Inst
 namespace Cx.Props.C14
 open Cx Cx.Spec Cx.Impl.Ed25519 Cx.Proofs.EdSpec Cx.Proofs.Ed25519Sign Cx.Proofs.Ed25519Verify
 open Cx.Spec.Field25519 (p)
@@ -21,9 +22,11 @@ open Cx.Spec.ScalarL (L)
 set_option maxRecDepth 10000
 
 section partials
-variable [hp : Fact (Nat.Prime p)] (G : EdwardsGroupLaw) (DF : DecodeFact) (MF : DsmFact) (SF : ScalarFacts)
-  (CF : CanonicalFact)
-include G DF MF SF CF
+variable [hp : Fact (Nat.Prime p)] (G : EdwardsGroupLaw) (DF : DecodeFact) (MF : DsmFact)
+include G DF MF
+
+local notation "SF" => Proofs.Ed25519Inst.scalarFacts
+local notation "CF" => Proofs.Ed25519Inst.canonicalFact
 
 /-- `verify` returns (never panics) and computes the Spec predicate, for every message below 2^124 bytes, every
     32-byte key string and every 64-byte signature string -/
@@ -40,7 +43,7 @@ theorem verify_accepts_iff_partial (msg pk sig : Bytes) (hpk : pk.length = 32) (
       ∃ A, Edwards.decode pk = some A ∧ pk ≠ zeros 32 ∧ leNat (sig.drop 32) < L ∧
         Edwards.encode (Edwards.sub (Edwards.smul (leNat (sig.drop 32)) Edwards.B)
           (Edwards.smul (leNat (Spec.Sha2.sha512 (sig.take 32 ++ pk ++ msg)) % L) A)) = sig.take 32 := by
-  rw [verify_is_spec_predicate_partial G DF MF SF CF msg pk sig hpk hsig hm]
+  rw [verify_is_spec_predicate_partial G DF MF msg pk sig hpk hsig hm]
   unfold Spec.Ed25519.verify Spec.Ed25519.verifyWith Spec.Ed25519.H Spec.Ed25519.L
   cases hd : Edwards.decode pk with
   | none => simp
@@ -60,7 +63,7 @@ theorem verify_accepts_iff_partial (msg pk sig : Bytes) (hpk : pk.length = 32) (
 /-- S + k·L (k ≥ 1) is never accepted: the canonical-S test -/
 theorem noncanonical_S_rejected_partial (msg pk sig : Bytes) (hpk : pk.length = 32) (hsig : sig.length = 64)
     (hm : msg.length < 2 ^ 124) (hS : L ≤ leNat (sig.drop 32)) : verify msg pk sig = some false := by
-  rw [verify_is_spec_predicate_partial G DF MF SF CF msg pk sig hpk hsig hm]
+  rw [verify_is_spec_predicate_partial G DF MF msg pk sig hpk hsig hm]
   unfold Spec.Ed25519.verify Spec.Ed25519.verifyWith Spec.Ed25519.L
   cases Edwards.decode pk with
   | none => rfl
@@ -72,7 +75,7 @@ theorem noncanonical_S_rejected_partial (msg pk sig : Bytes) (hpk : pk.length = 
 theorem zero_key_rejected_partial (msg pk sig : Bytes) (hz : pk = zeros 32) (hsig : sig.length = 64)
     (hm : msg.length < 2 ^ 124) : verify msg pk sig = some false := by
   have hpk : pk.length = 32 := by rw [hz]; simp [zeros]
-  rw [verify_is_spec_predicate_partial G DF MF SF CF msg pk sig hpk hsig hm]
+  rw [verify_is_spec_predicate_partial G DF MF msg pk sig hpk hsig hm]
   unfold Spec.Ed25519.verify Spec.Ed25519.verifyWith
   cases Edwards.decode pk with
   | none => rfl
